@@ -16,6 +16,16 @@ Four oracles, all against the independent E4 block model vf/ref/secs1.py:
               `message_received` event per transaction is required (handler called synchronously; no thread involved).
               With "repeat" the same traffic is fed a second time to the same protocol object (system bytes are reused
               by later transactions once a transaction is complete).
+              "many": 17..40 two- or three-block messages with distinct system bytes that are all open at the same time
+              (all first blocks, then all second blocks ... in a generated message order, or a generated merge).
+3b. reuse     2-6 COMPLETE messages fed one after the other (no interleaving) whose system bytes come from a pool of one
+              or two values, so that consecutive messages of DIFFERENT transactions carry the same system bytes: both
+              ends number their transactions independently, so the peer's primary numbered N can be directly followed by
+              the peer's reply to our own primary numbered N (same stream, function +1, W-bit dropped), or the peer uses
+              the same system bytes for its next transaction (other stream/function), or the two headers differ in
+              exactly one of device id / R / W / stream / function. Mostly single-block messages (so that the two blocks
+              also agree in block number 1 and E-bit), some multi-block ones. Every message must come back exactly at
+              its last block with its own header and body (same oracle as 3).
 4. corruption for sampled encoded blocks EVERY single-byte corruption (every position x the 255 other values) is given to
               SecsIBlock.decode the way SecsIProtocol._process_received_data would: it reads the length byte L and then
               takes L+3 bytes off the line. The result must not be a block object (None and an exception both count as
@@ -33,7 +43,11 @@ Corrections (where the oracle was narrowed to the statement):
   / E-bit of the message's header view are not part of "the original header" (Message.from_block renumbers the stored
   first block to 1, harmless).
 * Bodies above 32767 blocks, blocks arriving out of order or twice, and concurrent messages sharing system bytes are
-  outside the statement and never generated.
+  outside the statement and never generated. In the "reuse" cases messages that share system bytes are never open at
+  the same time (each is fed completely before the next one starts), and two consecutive messages with equal system
+  bytes always differ in at least one other header field BY CONSTRUCTION: a block whose whole 10-byte header equals that
+  of the previously accepted block is a retransmission duplicate that an E4 receiver may discard, so that input is
+  never generated; blocks of distinct transactions (different header) must all be delivered.
 """
 
 from __future__ import annotations
@@ -57,7 +71,11 @@ RULE = (
     "Cases: (a) split/encode/decode of (header fields, body length, fill) for all lengths 0..2000, k*244+{-1,0,1} for "
     "k<=40, sampled lengths up to 32767 blocks, all R x W x stream x function with sampled device/system; (b) single "
     "blocks with arbitrary block number / E-bit; (c) 2-4 messages with distinct system bytes, blocks interleaved by a "
-    "generated merge, fed to SecsIProtocol._add_message_block or _dispatch_block; (d) every (position, value) "
+    "generated merge, fed to SecsIProtocol._add_message_block or _dispatch_block; also 17-40 multi-block messages all "
+    "open at once (round-robin in a generated order or a generated merge); (c2) 2-6 complete messages fed one "
+    "after the other with system bytes from a pool of 1-2 values, consecutive messages with equal system bytes being "
+    "distinct transactions (primary then reply, next transaction, or one differing header field; mostly single-block); "
+    "(d) every (position, value) "
     "single-byte corruption of sampled reference-encoded blocks, framed as the receive path frames it. Oracle: "
     "vf/ref/secs1.py (block layout, split rule, checksum, reassembly). Non-trivial = body length >= 243 (at or above "
     "the first 244 boundary -1), or a merge that switches message >= 3 times, or a corruption. Distinct by hash of the "
@@ -369,6 +387,91 @@ def check_reasm(case):
 
 
 # --------------------------------------------------------------------------------------------
+# oracle 3b: consecutive complete messages of distinct transactions that share system bytes
+
+HDR_REST = ("dev", "r", "w", "s", "f")
+DISPATCH_SF = [(1, 1), (1, 15), (2, 17), (5, 7), (7, 19), (14, 0), (0, 0), (12, 0)]  # catalogued header-only functions
+
+
+def reuse_pairs(msgs):
+    """Consecutive messages with equal system bytes: [(index of the second, sorted differing header fields)]."""
+    out = []
+    for i in range(1, len(msgs)):
+        a, b = msgs[i - 1]["hdr"], msgs[i]["hdr"]
+        if a["sys"] == b["sys"]:
+            out.append((i, [k for k in HDR_REST if a[k] != b[k]]))
+    return out
+
+
+def check_reuse(case):
+    """case = {"k":"reuse","msgs":[{"hdr":..,"len":n,"fill":..}],"via":"add"|"dispatch","wire":"sg"|"ref"}: every message
+    is fed completely (all its blocks in order) before the next one starts."""
+    from secsgem.secsi.message import SecsIBlock, SecsIMessage
+
+    msgs = case["msgs"]
+    for i, diff in reuse_pairs(msgs):
+        if not diff:
+            raise ValueError(f"messages {i - 1} and {i}: identical headers (a retransmission duplicate, not a distinct transaction)")
+    proto = new_protocol()
+    events = []
+    proto.events.message_received += events.append
+    via = case.get("via", "add")
+    for i, m in enumerate(msgs):
+        body = body_of(m)
+        ref_blocks = secs1.message_blocks(m["hdr"], body)
+        if case.get("wire", "sg") == "ref":
+            frames = [secs1.block(f, d) for f, d in ref_blocks]
+        else:
+            try:
+                frames = [b.encode() for b in SecsIMessage(sg_header(m["hdr"]), body).blocks]
+            except Exception as exc:
+                return Failure(f"encode:raises:{type(exc).__name__}", case, _exc(exc), "encoded blocks")
+            if len(frames) != len(ref_blocks):
+                return Failure("split:block-count", case, len(frames), len(ref_blocks))
+        for j, fr in enumerate(frames):
+            where = f"message {i} block {j + 1}/{len(frames)}"
+            try:
+                blk = SecsIBlock.decode(bytearray(fr))
+            except Exception as exc:
+                return Failure(f"decode:raises:{type(exc).__name__}", case, f"{where}: {_exc(exc)}", "block object")
+            if blk is None:
+                return Failure("decode:valid-block-rejected", case, f"{where}: None", "block object")
+            n_before = len(events)
+            try:
+                if via == "dispatch":
+                    proto._dispatch_block(proto, blk)
+                    new = [ev["message"] for ev in events[n_before:]]
+                else:
+                    res = proto._add_message_block(blk)
+                    new = [] if res is None else [res]
+            except Exception as exc:
+                return Failure(f"reasm:raises:{type(exc).__name__}", case, f"{where}: {_exc(exc)}", "block accepted")
+            if j < len(frames) - 1:
+                if new:
+                    return Failure("reasm:early-complete", case, f"{where}: {len(new)} message(s) delivered", "nothing before the last block")
+                continue
+            if len(new) != 1:
+                same = i > 0 and msgs[i - 1]["hdr"]["sys"] == m["hdr"]["sys"]
+                if not new:
+                    b = "reuse:message-after-one-with-equal-system-bytes-not-delivered" if same else "reasm:not-complete-at-last-block"
+                else:
+                    b = "reasm:delivered-more-than-once"
+                return Failure(b, case, f"{where}: {len(new)} message(s) delivered", "exactly one")
+            got = new[0]
+            try:
+                d = field_diff(got.header, m["hdr"], secs1.MSG_FIELDS)
+                gdata = bytes(got.data)
+            except Exception as exc:
+                return Failure(f"reasm:message-view:raises:{type(exc).__name__}", case, f"{where}: {_exc(exc)}", "header/data")
+            if d:
+                return Failure(f"reasm:field:{d[0]}", case, f"{where}: {d[1]!r}", repr(d[2]))
+            if gdata != body:
+                diff = next((k for k in range(min(len(gdata), len(body))) if gdata[k] != body[k]), min(len(gdata), len(body)))
+                return Failure("reasm:body", case, f"{where}: {len(gdata)} bytes, first difference at {diff}", f"{len(body)} bytes of the original body")
+    return None
+
+
+# --------------------------------------------------------------------------------------------
 # oracle 4: corruption
 
 
@@ -611,6 +714,131 @@ def reasm_strategy():
     return _s()
 
 
+def many_strategy():
+    """17..40 multi-block messages with distinct system bytes open AT THE SAME TIME: all first blocks before any second
+    block (round-robin), or a generated merge."""
+
+    @st.composite
+    def _s(draw):
+        n = draw(st.one_of(st.integers(17, 24), st.integers(17, 24), st.integers(25, 40)))
+        base = draw(st.one_of(st.sampled_from(_SYS_EDGE), st.integers(0, 0xFFFFFFFF)))
+        step = draw(st.sampled_from([1, 1, 2, 0x100, 0x10001]))
+        systems = [(base + i * step) & 0xFFFFFFFF for i in range(n)]
+        via = draw(st.sampled_from(["add", "add", "dispatch"]))
+        msgs = []
+        for i in range(n):
+            h = draw(hdr_strategy())
+            h["sys"] = systems[i]
+            if via == "dispatch":
+                h["s"], h["f"] = 7, 3
+                msgs.append({"hdr": h, "ppid": "P%d" % i, "pplen": draw(st.sampled_from([245, 300, 480, 489, 700])), "fill": draw(fill_strategy())})
+            else:
+                msgs.append({"hdr": h, "len": draw(st.sampled_from([245, 245, 300, 488, 489, 700])), "fill": draw(fill_strategy())})
+        counts = [secs1.n_blocks(len(body_of(m))) for m in msgs]
+        seq = [i for i, c in enumerate(counts) for _ in range(c)]
+        order = list(draw(st.permutations(list(range(n)))))
+        rr = []
+        left = list(counts)
+        while any(left):
+            for i in order:
+                if left[i]:
+                    rr.append(i)
+                    left[i] -= 1
+        merge = draw(st.one_of(st.just(rr), st.just(rr), st.permutations(seq)))
+        return {"k": "reasm", "msgs": msgs, "merge": list(merge), "via": via, "wire": draw(st.sampled_from(["sg", "ref"])), "repeat": draw(st.integers(0, 1))}
+
+    return _s()
+
+
+def max_open(merge, counts):
+    """Largest number of transactions that have received a block but not yet their last one."""
+    ptr = [0] * len(counts)
+    best = 0
+    for i in merge:
+        ptr[i] += 1
+        best = max(best, sum(1 for p, c in zip(ptr, counts) if 0 < p < c))
+    return best
+
+
+def reuse_strategy():
+    @st.composite
+    def _s(draw):
+        n = draw(st.integers(2, 6))
+        via = draw(st.sampled_from(["add", "add", "dispatch"]))
+        pool = draw(st.lists(st.one_of(st.sampled_from(_SYS_EDGE), st.integers(0, 0xFFFFFFFF)), min_size=1, max_size=2, unique=True))
+        msgs = []
+        for i in range(n):
+            if i == 0:
+                h = draw(hdr_strategy())
+                h["sys"] = pool[0]
+                if via == "dispatch":
+                    h["s"], h["f"] = draw(st.sampled_from(DISPATCH_SF))
+            else:
+                p = msgs[-1]["hdr"]
+                sysb = draw(st.sampled_from([p["sys"], p["sys"]] + pool))
+                rel = draw(st.sampled_from(["reply", "next", "one", "fresh"] if via == "add" else ["next", "one"]))
+                if rel == "reply":  # primary <-> its counterpart of the other parity: same stream, neighbouring function
+                    h = dict(p)
+                    if p["f"] % 2:
+                        h["f"], h["w"] = (p["f"] + 1 if p["f"] < 255 else 254), 0
+                    else:
+                        h["f"], h["w"] = max(1, p["f"] - 1), draw(st.integers(0, 1))
+                    h["r"] = draw(st.sampled_from([p["r"], p["r"], 1 - p["r"]]))
+                elif rel == "next":  # the next transaction: another stream/function
+                    h = dict(p)
+                    if via == "dispatch":
+                        h["s"], h["f"] = draw(st.sampled_from([sf for sf in DISPATCH_SF if sf != (p["s"], p["f"])]))
+                    else:
+                        h["s"] = draw(st.integers(0, 127))
+                        h["f"] = draw(st.integers(0, 255))
+                        if (h["s"], h["f"]) == (p["s"], p["f"]):
+                            h["f"] = (p["f"] + 2) % 256
+                    h["w"] = draw(st.sampled_from([p["w"], 1 - p["w"]]))
+                elif rel == "one":  # exactly one other header field differs
+                    h = dict(p)
+                    which = draw(st.sampled_from(["dev", "r", "w", "s", "f"] if via == "add" else ["dev", "r", "w"]))
+                    if which == "dev":
+                        h["dev"] = p["dev"] ^ (1 << draw(st.integers(0, 14)))
+                    elif which in ("r", "w"):
+                        h[which] = 1 - p[which]
+                    elif which == "s":
+                        h["s"] = (p["s"] + draw(st.integers(1, 127))) % 128
+                    else:
+                        h["f"] = (p["f"] + draw(st.integers(1, 255))) % 256
+                else:
+                    h = draw(hdr_strategy())
+                    if all(h[k] == p[k] for k in HDR_REST):
+                        h["w"] = 1 - h["w"]
+                h["sys"] = sysb
+            ln = draw(st.one_of(st.sampled_from([0, 0, 1, 10, 243, 244]), st.integers(0, 244), st.integers(0, 244), st.sampled_from([245, 488, 489, 700])))
+            msgs.append({"hdr": h, "len": ln, "fill": draw(fill_strategy())})
+        return {"k": "reuse", "msgs": msgs, "via": via, "wire": draw(st.sampled_from(["sg", "sg", "ref"]))}
+
+    return _s()
+
+
+def reuse_record(ctx, case):
+    msgs = case["msgs"]
+    nb = [secs1.n_blocks(m["len"]) for m in msgs]
+    pairs = reuse_pairs(msgs)
+    classes = ["kind:reuse", f"reuse:msgs:{len(msgs)}", f"reuse:via:{case['via']}", f"reuse:wire:{case.get('wire', 'sg')}"]
+    for i, diff in pairs:
+        single = nb[i - 1] == 1 and nb[i] == 1
+        classes.append("reuse:equal-system-bytes:" + ("both-single-block" if single else "multi-block-involved"))
+        a, b = msgs[i - 1]["hdr"], msgs[i]["hdr"]
+        if len(diff) == 1:
+            classes.append(f"reuse:differs-only-in:{diff[0]}")
+        elif a["s"] == b["s"] and abs(a["f"] - b["f"]) == 1 and "dev" not in diff:
+            classes.append("reuse:differs:primary/reply")
+        else:
+            classes.append("reuse:differs:several-fields")
+    if len(pairs) >= 2:
+        classes.append("reuse:equal-system-bytes:>=3-in-a-row" if any(pairs[k][0] + 1 == pairs[k + 1][0] for k in range(len(pairs) - 1)) else "reuse:equal-system-bytes:two-pairs")
+    if not pairs:
+        classes.append("reuse:no-equal-neighbours")
+    ctx.case(case, bool(pairs), classes)
+
+
 def reasm_record(ctx, case):
     lens = [len(body_of(m)) for m in case["msgs"]]
     merge = case["merge"] if isinstance(case["merge"], list) else merge_of(case, [secs1.n_blocks(n) for n in lens])
@@ -618,12 +846,15 @@ def reasm_record(ctx, case):
     sfs = {(m["hdr"]["s"], m["hdr"]["f"]) for m in case["msgs"]}
     classes = [
         "kind:reasm",
-        f"reasm:msgs:{len(lens)}",
+        f"reasm:msgs:{len(lens)}" if len(lens) <= 4 else "reasm:msgs:17-40",
         f"reasm:via:{case['via']}",
         f"reasm:wire:{case.get('wire', 'sg')}",
         "reasm:alt:" + ("0" if alt == 0 else "1-2" if alt < 3 else "3-9" if alt < 10 else ">=10"),
         f"reasm:maxblocks:{nblocks_class(max(secs1.n_blocks(n) for n in lens))}",
     ]
+    mo = max_open(merge, [secs1.n_blocks(n) for n in lens]) if isinstance(case["merge"], list) else None
+    if mo is not None:
+        classes.append("reasm:open-at-once:" + ("0-1" if mo <= 1 else "2-4" if mo <= 4 else "5-16" if mo <= 16 else ">=17"))
     if len(sfs) == 1:
         classes.append("reasm:same-stream-function")
     if case.get("repeat"):
@@ -712,6 +943,10 @@ def plan(tier, seed):
     for sh in range(8):
         tasks.append(("reasm", {"shard": sh, "n": 400 if quick else 5000}))
     for sh in range(4):
+        tasks.append(("many", {"shard": sh, "n": 60 if quick else 1000}))
+    for sh in range(4):
+        tasks.append(("reuse", {"shard": sh, "n": 300 if quick else 4000}))
+    for sh in range(4):
         tasks.append(("gen_split", {"shard": sh, "n": 250 if quick else 5000}))
     for sh in range(2):
         tasks.append(("gen_block", {"shard": sh, "n": 600 if quick else 10000}))
@@ -773,6 +1008,20 @@ def run_task(name, kw, ctx):
             return check_reasm(case)
 
         _hyp(ctx, reasm_strategy(), body, kw["n"], 20 + kw["shard"])
+    elif name == "many":
+
+        def body(case):
+            reasm_record(ctx, case)
+            return check_reasm(case)
+
+        _hyp(ctx, many_strategy(), body, kw["n"], 80 + kw["shard"])
+    elif name == "reuse":
+
+        def body(case):
+            reuse_record(ctx, case)
+            return check_reuse(case)
+
+        _hyp(ctx, reuse_strategy(), body, kw["n"], 60 + kw["shard"])
     elif name == "corrupt":
         for spec in kw["specs"]:
             if ctx.out_of_time():
@@ -828,4 +1077,6 @@ def replay(case, ctx):
         return check_reasm(case)
     if k == "corrupt":
         return check_corrupt(case)
+    if k == "reuse":
+        return check_reuse(case)
     raise ValueError(f"unknown case kind {k!r}")
